@@ -122,7 +122,14 @@ Proof.
   - (* SCallVirt *)
     apply bind_Ok in H. destruct H as [vs [Hv H]]. rewrite Hv. cbn [bind].
     apply bind_Ok in H. destruct H as [pfx [Hp H]]. rewrite Hp. cbn [bind].
-    destruct (lget vtab pfx); [|discriminate]. apply CALL. exact H.
+    destruct (lget vtab pfx); [apply CALL; exact H|].
+    destruct (lget (ptrs s) (class_key pfx)) as [[z|cls off|]|]; try discriminate. apply CALL. exact H.
+  - (* SNewObj *)
+    apply bind_Ok in H. destruct H as [vs [Hv H]]. rewrite Hv. cbn [bind].
+    destruct ctor as [fname|]; [|exact H].
+    destruct (lget prog fname) as [f|]; [|discriminate].
+    apply bind_Ok in H. destruct H as [l [Hl H]]. rewrite Hl. cbn [bind].
+    apply bind_Ok in H. destruct H as [r1 [Hr1 H]]. rewrite (IH' _ _ _ Hr1). cbn [bind]. exact H.
 Qed.
 
 Lemma call_mono : forall fuel f pfx vs s r, call prog vtab fuel f pfx vs s = Ok r ->
